@@ -105,6 +105,7 @@ def make_case(cid, rng, mix):
     g.prologue = mix.get('prologue', rng.choice([0.55, 0.3, 0.15]))
     g.single = rng.random() < mix.get('single', 0.5)
     g.multi = rng.random() < mix.get('multi', 0.35)
+    g.blockfirst = rng.random() < mix.get('blockfirst', 0.25)
     body, nsites, nreads = prog.number(g.program())
     locals_ = sorted(prog.bound_names(body))
     pre = []
